@@ -75,23 +75,64 @@ def mem_available_gb():
     return 1e9
 
 
-_start_lock = threading.Lock()
+_mem_cv = threading.Condition()
+_mem_reserved = [0.0]
 
 
-def wait_for_memory(need_gb, max_wait_s=1800):
-    """Do not start another solver process while the machine is short of memory (there is no swap: the kernel would kill
-    running solvers and their results would be lost).  Starts are serialised so that several waiting workers do not all
-    start at once; after max_wait_s the harness starts anyway (its own RLIMIT_AS still applies)."""
+def mem_total_gb():
+    try:
+        for line in open("/proc/meminfo"):
+            if line.startswith("MemTotal:"):
+                return int(line.split()[1]) / (1 << 20)
+    except OSError:
+        pass
+    return 64.0
+
+
+def harness_need_gb(h):
+    """Expected peak resident memory of a harness (GB): the harness' need= key if it has one (measured), else a default
+    by its recorded running time (short queries are small)."""
+    if h.get("need"):
+        return float(h["need"])
+    try:
+        est = float(h.get("est", "30"))
+    except ValueError:
+        est = 30.0
+    return 2.0 if est <= 40 else (5.0 if est <= 120 else 9.0)
+
+
+def reserve_memory(need_gb, max_wait_s=3600):
+    """Admission control: there is no swap, so solver processes that together outgrow the machine are killed by the kernel
+    and their results are lost (seen: 12 of 107 C02 harnesses died when 14 started at once).  A harness starts only when
+    the sum of the expected peaks of the running harnesses plus its own fits into 85 % of the machine AND that much memory
+    is actually available now (other users of the machine); after max_wait_s it starts anyway (RLIMIT_AS still applies)."""
+    budget = 0.85 * mem_total_gb()
+    need_gb = min(need_gb, budget)
     t0 = time.time()
-    with _start_lock:
-        while mem_available_gb() < need_gb and time.time() - t0 < max_wait_s:
-            time.sleep(5)
-        # give the process just started a moment to allocate before the next worker looks at MemAvailable
-        time.sleep(0.5)
+    with _mem_cv:
+        while time.time() - t0 < max_wait_s:
+            if _mem_reserved[0] + need_gb <= budget and (mem_available_gb() >= need_gb + 2 or _mem_reserved[0] == 0):
+                break
+            _mem_cv.wait(timeout=5)
+        _mem_reserved[0] += need_gb
+    return need_gb
+
+
+def release_memory(got_gb):
+    with _mem_cv:
+        _mem_reserved[0] -= got_gb
+        _mem_cv.notify_all()
 
 
 def run_harness(ctx, grp, h):
-    wait_for_memory(float(h.get("need", "6")))
+    got = reserve_memory(harness_need_gb(h))
+    try:
+        return run_harness_inner(ctx, grp, h)
+    finally:
+        release_memory(got)
+
+
+def run_harness_inner(ctx, grp, h):
     modname = h["_mod"]
     # harness modules of verif_kani are addressed by their plain module name; inner modules by their full path
     full = f"{modname}::{h['name']}::check" if "::" in modname else f"verif_kani::{modname}::{h['name']}::check"
@@ -251,6 +292,7 @@ def main():
     ap.add_argument("--jobs", type=int, default=int(os.environ.get("VERIF_JOBS", "14")))
     ap.add_argument("--keep", action="store_true")
     ap.add_argument("--no-evidence", action="store_true")
+    ap.add_argument("--list", action="store_true", help="list the selected harnesses with tier / est / mem and exit (development aid)")
     a = ap.parse_args()
     prop = a.prop.upper()
     seed = int(os.environ.get("VERIF_SEED", "0") or 0)
@@ -318,8 +360,30 @@ def main():
                     return True
                 full = "%s/%s::%s" % (vname, h["_mod"], h["name"])
                 return any(o and o in full for o in a.only.split(","))
-            sel = [h for h in hs if not (a.tier == "quick" and h["tier"] != "quick") and wanted(h)]
+            def in_tier(h):
+                # thorough: every harness that names the property.
+                # quick: a tier=quick harness that serves several properties runs in the quick check of ONE of them, its
+                # home: the first property of its prop= list whose plan contains this shadow variant (the adopting property
+                # if none does), plus every property listed in its quick= key.  So each (variant, harness) pair is run by
+                # exactly one quick check unless it says otherwise, and by the thorough check of every property it names.
+                if a.tier != "quick":
+                    return True
+                if h["tier"] != "quick":
+                    return False
+                # quick_variants=: in the quick tier on the listed shadow variants only (thorough on the others)
+                if h.get("quick_variants") and vname not in h["quick_variants"].split(","):
+                    return False
+                props = h.get("prop", prop).split(",")
+                cands = [q for q in props if any(e[0] == vname for e in plan.PLAN.get(q, []))]
+                home = cands[0] if cands else prop
+                also = [x for x in h.get("quick", "").split(",") if x]
+                return home == prop or prop in also
+            sel = [h for h in hs if in_tier(h) and wanted(h)]
             if not sel:
+                continue
+            if a.list:
+                for h in sel:
+                    print("LIST %s %s/%s::%s tier=%s est=%s mem=%s need=%s" % (prop, vname, h["_mod"], h["name"], h["tier"], h.get("est", "?"), h.get("mem", "-"), h.get("need", "-")))
                 continue
             gid = re.sub(r"[^A-Za-z0-9_]+", "_", vname)
             gdir = os.path.join(scratch, "s_" + gid, variant.get("pkg_name") or variant["crate"])
@@ -330,12 +394,11 @@ def main():
                 engine_errors.append(f"{vname}: {e}")
                 continue
             grp = {"id": gid, "dir": gdir, "variant": variant, "vname": vname, "files": files}
-            for h in hs:
-                if a.tier == "quick" and h["tier"] != "quick":
-                    continue
-                if not wanted(h):
-                    continue
+            for h in sel:
                 groups.append((grp, h))
+        if a.list:
+            cleanup()
+            sys.exit(0)
         # longest first
         groups.sort(key=lambda gh: -int(gh[1].get("est", "10")))
         with cf.ThreadPoolExecutor(max_workers=a.jobs) as ex:
